@@ -548,7 +548,7 @@ theorem stepX_inv (s : XSt) (k : XChk) (m : XMode) (pt : Nat × Nat) (h : XInv s
               by simp, ⟨v, hv, by simp⟩⟩
             rw [roleOf_holder (k := { k with last := some c, pend := true }) hh]
             exact ⟨fun u hu => by simpa [contProg, hu] using hP.others u hu, by simpa [contProg] using hr,
-              by simp, fun _ => rfl, by simp, fun _ => ⟨nextCounter c, rfl, by simp [follows]⟩⟩
+              by simp, fun _ => rfl, by simp [hP.busy], fun _ => ⟨nextCounter c, rfl, by simp [follows]⟩⟩
           · -- `__aexit__`: the counter goes back into the file
             refine ⟨k, .exiting, ?_,
               fun rest => by simp [stepX, hinit, hb, hpr, hc, checkX, xchk1, hh, hpend]⟩
@@ -625,5 +625,110 @@ theorem stepX_inv (s : XSt) (k : XChk) (m : XMode) (pt : Nat × Nat) (h : XInv s
             have hown : s.file.owner = some q := by rw [h.owner, hk]; rfl
             exact ⟨k, m, by simpa [stepX, hinit, hb, hpr, hown, hqp] using h,
               fun rest => by simp [stepX, hinit, hb, hpr, hown, hqp, checkX, xchk1]⟩
+
+theorem runX_ok (s : XSt) (k : XChk) (m : XMode) (sched : List (Nat × Nat)) (h : XInv s k m) :
+    checkX k (runX s sched) = true := by
+  induction sched generalizing s k m with
+  | nil => rfl
+  | cons pt rest ih =>
+    obtain ⟨k', m', hi, hc⟩ := stepX_inv s k m pt h
+    simp only [runX]
+    rw [hc]; exact ih _ _ _ hi
+
+theorem oneTask_getD {tasks : List (List (List Nat))} (h : oneTask tasks = true) (q t : Nat) (ht : t ≠ 0) :
+    (tasks.getD q []).getD t [] = [] := by
+  have hl : (tasks.getD q []).length ≤ 1 := by
+    rw [List.getD_eq_getElem?_getD]
+    cases hq : tasks[q]? with
+    | none => simp
+    | some ts =>
+      have hmem := List.mem_of_getElem? hq
+      simp only [oneTask, List.all_eq_true, decide_eq_true_eq] at h
+      simpa using h ts hmem
+  rw [List.getD_eq_getElem?_getD, List.getElem?_eq_none (by omega)]
+  rfl
+
+/-- a process that has not taken the lock, anywhere in `LockFile.__init__` except between create and write -/
+theorem pinv_idle {tasks : List (List (List Nat))} (h : oneTask tasks = true) (q : Nat) (i : InitSt) (hi : i ≠ .created)
+    (l : Option Nat) :
+    PInv { init := i, ctr := none, busy := none, progs := fun t => progX ((tasks.getD q []).getD t []) } none l :=
+  ⟨fun t ht => by show progX ((tasks.getD q []).getD t []) = []; rw [oneTask_getD h q t ht]; rfl,
+    by simp [wfX_prog], hi, by simp, by simp, by simp⟩
+
+theorem fileOk_byte {off : Nat} {data : List Nat} (h : fileOk off data = true) :
+    ∃ v, data[off]? = some v ∧ follows none v = true := by
+  unfold fileOk at h
+  cases hd : data[off]? with
+  | none => simp [hd] at h
+  | some v => exact ⟨v, rfl, by simpa [hd, follows] using h⟩
+
+theorem initX_inv (size off : Nat) (data : List Nat) (tasks : List (List (List Nat)))
+    (hf : fileOk off data = true) (h1 : oneTask tasks = true) :
+    XInv (initX size off (some data) tasks) xchk0 .out := by
+  obtain ⟨v, hv, hfv⟩ := fileOk_byte hf
+  refine ⟨rfl, fun q => ?_, rfl, by simp [xchk0], by simp [xchk0], by simp [xchk0], ⟨v, hv, fun _ _ => hfv⟩⟩
+  have : roleOf xchk0 .out q = none := by simp [roleOf, xchk0]
+  rw [this]
+  exact pinv_idle h1 q .fresh (by simp) _
+
+/-- **cross-process, what holds**: any number of processes, one mailbox task each, lock file initialised:
+under every schedule of the file operations the exchanges are serialised, the counters of successive messages
+of all processes are consecutive in the cycle, every counter read from the file is valid, nobody fails -/
+theorem crossproc_serialised_partial (size off : Nat) (data : List Nat) (tasks : List (List (List Nat)))
+    (sched : List (Nat × Nat)) (hf : fileOk off data = true) (h1 : oneTask tasks = true) :
+    checkX xchk0 (runX (initX size off (some data) tasks) sched) = true :=
+  runX_ok _ _ _ _ (initX_inv size off data tasks hf h1)
+
+/-- **creation, what holds**: if the creating process gets through `LockFile.__init__` (create, write) before
+any other process runs, then for any number of processes (one mailbox task each) and any continuation of the
+schedule everything is serialised and counted from 0 -/
+theorem creation_window_safe_partial (size off : Nat) (tasks : List (List (List Nat))) (p t1 t2 : Nat)
+    (rest : List (Nat × Nat)) (ho : off < size) (h1 : oneTask tasks = true) :
+    checkX xchk0 (runX (initX size off none tasks) ((p, t1) :: (p, t2) :: rest)) = true := by
+  have e1 : stepX (initX size off none tasks) (p, t1) =
+      ({ (initX size off none tasks) with
+          file := { present := true, data := [], owner := none },
+          procs := setProc (initX size off none tasks).procs p
+            { init := .created, ctr := none, busy := none, progs := fun t => progX ((tasks.getD p []).getD t []) } },
+       [.creat p true]) := by
+    simp [stepX, initX]
+  simp only [runX, e1]
+  generalize hs1 : ({ (initX size off none tasks) with
+          file := { present := true, data := [], owner := none },
+          procs := setProc (initX size off none tasks).procs p
+            { init := .created, ctr := none, busy := none, progs := fun t => progX ((tasks.getD p []).getD t []) } } : XSt) = s1
+  have e2 : stepX s1 (p, t2) =
+      ({ s1 with
+          file := { present := true, data := writeInit [] size, owner := none },
+          procs := setProc s1.procs p
+            { init := .ready, ctr := none, busy := none, progs := fun t => progX ((tasks.getD p []).getD t []) } },
+       [.winit p]) := by
+    subst hs1; simp [stepX, initX, setProc]
+  rw [e2]
+  simp only [List.singleton_append, checkX, xchk1]
+  apply runX_ok _ _ .out
+  subst hs1
+  refine ⟨rfl, fun q => ?_, rfl, by simp [xchk0], by simp [xchk0], by simp [xchk0],
+    ⟨0, by simp [writeInit, initX, ho], fun _ _ => by simp [follows, xchk0]⟩⟩
+  have : roleOf xchk0 .out q = none := by simp [roleOf, xchk0]
+  rw [this]
+  by_cases hq : q = p
+  · subst hq; simpa [setProc] using pinv_idle h1 q .ready (by simp) _
+  · simpa [setProc, hq, initX] using pinv_idle h1 q .fresh (by simp) _
+
+/-! ### non-vacuity -/
+
+/-- two processes contend for the byte; the second spins on `lockf`, then continues the count -/
+example : runX (initX 4 1 (some [0, 5, 0, 0]) [[[1]], [[2]]])
+      [(0,0), (0,0), (1,0), (1,0), (0,0), (1,0), (0,0), (0,0), (0,0), (1,0), (0,0), (0,0),
+       (1,0), (1,0), (1,0), (1,0), (1,0), (1,0), (1,0), (1,0)] =
+    [.creat 0 false, .opened 0, .creat 1 false, .opened 1, .lockOk 0 0, .lockBusy 1 0, .pread 0 0 5, .send 0 0 5,
+     .recv 0 0, .lockBusy 1 0, .pwrite 0 0 6, .unlock 0 0, .lockOk 1 0, .pread 1 0 6, .send 1 0 6, .recv 1 0,
+     .send 1 0 7, .recv 1 0, .pwrite 1 0 1, .unlock 1 0] := by decide
+example : fileOk 1 [0, 5, 0, 0] = true ∧ oneTask [[[1]], [[2]]] = true := by decide
+/-- creation completed first: the second process opens an initialised file -/
+example : runX (initX 4 1 none [[[1]], [[1]]]) [(0,3), (0,0), (1,0), (1,0), (1,0), (1,0), (1,0)] =
+    [.creat 0 true, .winit 0, .creat 1 false, .opened 1, .lockOk 1 0, .pread 1 0 0, .send 1 0 0] := by decide
+example : (afterX (initX 4 1 none [[[1]], [[1]]]) windowSched).file.owner = some 1 := by decide
 
 end Ebv.C15
